@@ -431,8 +431,8 @@ func (s *Session) onRecord(resp *Response, req *Request) {
 }
 
 func (s *Session) onPlay(resp *Response, req *Request) (err error) {
-	if s.status == statusPlaying {
-		return
+	if s.status == statusPlaying { // 已在播放：仍需回复(每个请求必须有且只有一个响应)
+		return s.response(resp)
 	}
 
 	// 传输模式、会话模式判断
